@@ -350,7 +350,7 @@ func vestingScenario(run *ev.Run) *scenario {
 			poolOp(w, "c0", "stop", 0, "c2", ",dest=c2"),
 			poolOp(w, "c0", "delete", 1, "", ""))
 	}
-	sc.dq, sc.dt = 4, 5
+	sc.dq, sc.dt = 4, 4
 	sc.rule = "BFS from 4 scripted pools (2 small destinations with excess / 2^53+3 and 5 with delayed start / 3 destinations incl. 1e17+1 without excess / one destination with the minimum duration) over {trigger, unlock by each destination, unlock by owner, stop, delete, add a second pool, stranger calls, clock ticks of 1 and 3 s}, one virtual second per step so that every second of [start-1, expiry+2] is visited; oracle per transition and destination: vested never decreases, <= amount, <= ceil(amount*elapsed/duration) (big integers), tokens paid == vested increase, amount/schedule immutable, pool balance >= sum of unvested remainders, owner delete always succeeds, owner unlock pays exactly the excess, an unlock at/after expiry always makes progress until vested == amount"
 	return sc
 }
